@@ -497,6 +497,7 @@ func init() {
 				var e error = err
 				if err == nil {
 					e = cs.RecvMsg(&hx.Msg{})
+					runtime.KeepAlive(cs) // (the HTTP stream wrapper's finalizer would cancel the receive in flight: F14)
 				}
 				took := time.Since(start)
 				outerCancel()
